@@ -199,3 +199,11 @@ def first_of(series):
 
 def power_xy(x, y, k):
     return k * x**2 * y
+
+
+def hill_helper(s, vmax, km=1.0, n=2.0):
+    return vmax * s**2 / (km + s**2) * n
+
+
+def calls_with_partial_defaults(s, vmax, km):
+    return hill_helper(s, vmax, km)
